@@ -16,6 +16,7 @@
   the next block, where `CompleteUnbondings` burns them (`module_holds_bond`, `stranded_reward_burn`).
 -/
 import AllianceProofs
+import Generated.Facts
 import AllianceModel.Query
 namespace Alliance
 namespace C11
@@ -139,6 +140,14 @@ theorem rebalance_moves_no_user_balance (u : Acct) (d : Denom) (hu : IsUser u) (
     (h : rebalanceHook assets w = (.ok (), w')) : bankBalance w' u d = bankBalance w u d := by
   have := ((rebalanceHook_user (d := d) hu assets).run w w' () h trivial).1
   omega
+
+
+/-- fact (regenerated from app/app.go on every run): the alliance module account may mint and burn — the end blocker burns
+    whatever staking-denom coins the account holds (`CompleteUnbondings`) and the rebalancer mints and burns the virtual stake;
+    without the burner permission the bank module panics and the chain halts (seeded change C17-j) — and the rewards pool has no
+    permission at all -/
+theorem module_account_permissions_as_modelled :
+    Generated.allianceModulePerms = ["authtypes.Burner", "authtypes.Minter"] ∧ Generated.rewardsPoolPerms = [] := by decide
 
 end C11
 end Alliance
